@@ -10,6 +10,7 @@ import (
 	"strconv"
 	"strings"
 	"sync"
+	"sync/atomic"
 
 	"verif/harness/internal/core"
 	"verif/harness/internal/tlc"
@@ -105,6 +106,18 @@ func ccRun(cs ccCase) ([]core.Finding, []string) {
 				world.call("Check", "shared", "")
 			}
 		}
+		// contents that are new to the process: every goroutine of every round gets a text nobody has seen before
+		// (whatever the library remembers between schemas - compiled patterns, interned names - is cold)
+		objContent := map[string]string{}
+		for _, p := range ps {
+			objContent[p] = cs.Objs[p]
+			if tmpl, ok := apiFreshTemplates[cs.Objs[p]]; ok {
+				n := atomic.AddInt64(&apiFreshSeq, 1)
+				key := fmt.Sprintf("%s#%d", cs.Objs[p], n)
+				apiTexts[key] = strings.ReplaceAll(tmpl, "<n>", fmt.Sprint(n))
+				objContent[p] = key
+			}
+		}
 		start := make(chan struct{})
 		var wg sync.WaitGroup
 		for gi, p := range ps {
@@ -119,7 +132,7 @@ func ccRun(cs ccCase) ([]core.Finding, []string) {
 				if !cs.Shared {
 					w = newWorld()
 					name = "own" + p
-					ccMakeObject(w, name, cs.Objs[p])
+					ccMakeObject(w, name, objContent[p])
 				}
 				<-start
 				var held []*heldResult
@@ -138,7 +151,7 @@ func ccRun(cs ccCase) ([]core.Finding, []string) {
 						add(core.Finding{Class: "concurrent:panic:" + op, What: fmt.Sprintf("goroutine %s call %d %s: panic %s", p, i, op, firstLineStr(pn))})
 						return
 					}
-					ref := apiReference(op, cs.Objs[p], ccRegs(cs.Objs[p]))
+					ref := apiReference(op, objContent[p], ccRegs(cs.Objs[p]))
 					if res != ref {
 						add(core.Finding{Class: "concurrent:result-differs:" + op, What: fmt.Sprintf("goroutine %s call %d %s on %s (shared=%v): %.160q, sequential result %.160q", p, i, op, cs.Objs[p], cs.Shared, res, ref)})
 					}
@@ -166,6 +179,12 @@ func ccRun(cs ccCase) ([]core.Finding, []string) {
 	}
 	return fs, pools.take()
 }
+
+// templates of contents that are instantiated with a number nobody has used before
+var apiFreshTemplates = map[string]string{
+	"rxfresh": "{\n  \"name\": \"T<n>\", // {regex: \"^T<n>$\"}\n  \"tag\": \"k<n>\" // {enum: [\"k<n>\", \"other<n>\"]}\n}",
+}
+var apiFreshSeq int64
 
 var c11Once sync.Once
 
@@ -267,7 +286,10 @@ func runC11(c *core.Ctx) error {
 	// rejected schemas: the goroutines race for the first call on one object and every answer is a positioned diagnostic
 	ops = `{"Check","Len","GetAST","Example"}`
 	cfgFiles["Concurrent_shared_fresh_rejected.cfg"] = mkcfg(true, false, `{"badvalueCR","badscanCR","badrefLF"}`)
-	for _, cfg := range []string{"Concurrent_shared_prechecked.cfg", "Concurrent_shared_fresh.cfg", "Concurrent_own.cfg", "Concurrent_shared_fresh_rejected.cfg"} {
+	// own objects whose texts are new to the process (patterns, enum values, names never seen before)
+	ops = `{"Check","Example","GetAST"}`
+	cfgFiles["Concurrent_own_fresh_texts.cfg"] = mkcfg(false, true, `{"rxfresh"}`)
+	for _, cfg := range []string{"Concurrent_shared_prechecked.cfg", "Concurrent_shared_fresh.cfg", "Concurrent_own.cfg", "Concurrent_shared_fresh_rejected.cfg", "Concurrent_own_fresh_texts.cfg"} {
 		res, err := tlc.Run(tlc.Opts{Module: "Concurrent", Cfg: cfg, Workers: 16, HeapGB: 12, Timeout: 0, Files: cfgFiles, OnLine: func(l string) {
 			n++
 			var raw struct {
